@@ -115,6 +115,7 @@ def run_cases(chk, fam, cases, label='', peers=None, python=None):
                    'isList': by_id[p]['o']['list'],
                    'listing': by_id[p]['rep']['listing'],
                    'execPairs': exec_pairs(by_id[p]['ev']),
+                   'lookalikes': len([e for e in by_id[p]['ev'] if e['e'] == 'LOOK']),
                    'layerFaults': len([e for e in by_id[p]['ev']
                                        if (e['e'] == 'SUE' and e['s'] != 'ok')
                                        or (e['e'] == 'TDE' and e['s'] == 'raise')]),
